@@ -98,12 +98,14 @@ Spec == Init /\ [][Next]_gvars
 Base ==
   IF Alg = "snappy"
   THEN LET a == SnApply(SnApply(SnApply([bytes |-> <<>>, out |-> <<>>, ok |-> TRUE], e1), e2), e3)
-       IN [stream |-> SnVarint(Len(a.out)) \o a.bytes, out |-> a.out, ok |-> a.ok, strictok |-> a.ok, body |-> a.bytes]
+       IN [stream |-> SnVarint(Len(a.out)) \o a.bytes, out |-> a.out, ok |-> a.ok, strictok |-> a.ok, body |-> a.bytes,
+           seqs |-> a.bytes, mid |-> a.out]
   ELSE LET a == LzApply(LzApply([bytes |-> <<>>, out |-> <<>>, ok |-> TRUE, lastm |-> -1], e1, 1), e2, 2)
            fl == Pat(e3, 3)
            out == a.out \o fl
        IN [stream |-> BE32(Len(out)) \o a.bytes \o LzFinal(fl), out |-> out, ok |-> a.ok,
-           strictok |-> a.ok /\ Len(out) - a.lastm >= 12, body |-> a.bytes \o LzFinal(fl)]
+           strictok |-> a.ok /\ Len(out) - a.lastm >= 12, body |-> a.bytes \o LzFinal(fl),
+           seqs |-> a.bytes, mid |-> a.out]
 
 PrefLen == IF Alg = "snappy" THEN Len(Base.stream) - Len(Base.body) ELSE 4
 Cuts == LET n == Len(Base.stream) IN {k \in {PrefLen, PrefLen + 1, PrefLen + 2, PrefLen + 3, n \div 2, n - 3, n - 2, n - 1} : k >= 0 /\ k < n}
@@ -121,7 +123,12 @@ Variants ==
        [cls |-> "trailing-byte", stream |-> b.stream \o <<0>>],
        [cls |-> "trailing-element", stream |-> b.stream \o (IF Alg = "snappy" THEN <<0, 65>> ELSE <<16, 65>>)]} \cup
       (IF Alg = "lz4" THEN {[cls |-> "length-prefix-little-endian", stream |-> <<B(n, 0), B(n, 1), B(n, 2), B(n, 3)>> \o b.body],
-                            [cls |-> "length-prefix-zero", stream |-> BE32(0) \o b.body]}
+                            [cls |-> "length-prefix-zero", stream |-> BE32(0) \o b.body]} \cup
+                           \* the input ends inside the match-length field (token announces an extension byte that is
+                           \* not there) while the length prefix equals what a decoder assuming "extension = 0" produces
+                           (IF e1.ml = 19 /\ e2.ll < 0
+                            THEN {[cls |-> "truncated-in-match-length", stream |-> BE32(Len(b.mid)) \o SubSeq(b.seqs, 1, Len(b.seqs) - 1)]}
+                            ELSE {})
        ELSE {[cls |-> "length-varint-not-minimal", stream |-> <<128 + (n % 128)>> \o (IF n < 128 THEN <<0>> ELSE <<128 + (n \div 128), 0>>) \o b.body]}))
 
 Emit == PrintT(<<"STREAMS", ToJson([alg |-> Alg, out |-> Base.out, ok |-> Base.ok, strictok |-> Base.strictok,
@@ -138,6 +145,6 @@ RefAgrees == LET b == Base
 \* every structural corruption the generator labels as such is rejected even by the lenient reading
 CorruptRejected ==
   \A v \in Variants : v.cls \in {"truncated", "length-prefix-too-large", "length-prefix-much-too-large", "length-prefix-too-small",
-                                 "offset-beyond-output", "length-prefix-little-endian"}
+                                 "offset-beyond-output", "length-prefix-little-endian", "truncated-in-match-length"}
                       => (RefDecode(Alg, v.stream, FALSE) = Err \/ v.cls = "truncated")
 =============================================================================
